@@ -58,7 +58,24 @@ func (c *Check) routerRoles2(id string) *RouterRoles2 {
 	if fs := ReturnedFields(r.Running, 0); len(fs) == 1 {
 		r.RunningCh = fs[0]
 	}
-	r.ClosedLockF = oneField(r.R, TypeIs("sync.Mutex"))
+	// the lock the closed flag is read under: the mutex IsClosed takes (a value or a pointer field)
+	for _, cl := range rawCallsIn(r.IsClosed) {
+		n := CalleeName(cl)
+		if n != "(*sync.Mutex).Lock" && n != "(*sync.RWMutex).Lock" && n != "(*sync.RWMutex).RLock" {
+			continue
+		}
+		recv := cl.Common().Args[0]
+		if fa, ok := recv.(*ssa.FieldAddr); ok {
+			if f, _ := FieldOf(fa); f != nil {
+				r.ClosedLockF = f
+			}
+		} else if f := LoadedField(firstOrigin(recv)); f != nil {
+			r.ClosedLockF = f
+		}
+	}
+	if r.ClosedLockF == nil {
+		r.ClosedLockF = oneField(r.R, TypeIs("sync.Mutex"))
+	}
 	for _, cl := range BuiltinCalls(r.Close, "close") {
 		f := LoadedField(firstOrigin(cl.Common().Args[0]))
 		if f == nil {
@@ -317,6 +334,8 @@ func FindWrapLoops(fn *ssa.Function) []WrapLoop {
 			switch {
 			case IsFullRangeIndex(ia.Index, ia.X):
 				wl.Dir, wl.Full = +1, true
+			case isMirroredFullRange(ia.Index, ia.X):
+				wl.Dir, wl.Full = -1, true
 			default:
 				wl.Dir, wl.Full = loopDirection(ia.Index, ia.X)
 			}
@@ -413,4 +432,22 @@ func (r *RouterRoles2) handlerStartLockID() string {
 		}
 	})
 	return id
+}
+
+// isMirroredFullRange: idx is (len(s)-1) - i for an i that runs over the full range of s upwards — a descending walk
+// spelled with an ascending counter.
+func isMirroredFullRange(idx, s ssa.Value) bool {
+	bo, ok := idx.(*ssa.BinOp)
+	if !ok || bo.Op != token.SUB || !IsFullRangeIndex(bo.Y, s) {
+		return false
+	}
+	last, ok := firstOrigin(bo.X).(*ssa.BinOp)
+	if !ok || last.Op != token.SUB || len(Origins(bo.X)) != 1 {
+		return false
+	}
+	if n, isC := IntConst(last.Y); !isC || n != 1 {
+		return false
+	}
+	args, isLen := IsBuiltinCall(last.X, "len")
+	return isLen && len(args) == 1 && sameValue(args[0], s)
 }
